@@ -56,7 +56,8 @@ def run(ctx: Ctx) -> None:
                    cases, raw, prelude, shard=300)
 
     # ---- oracle: renaming commutes with transpilation ----
-    N = ctx.n(45, 3000) * (3 if ctx.broken else 1)
+    N = ctx.n(24, 3000) * (3 if ctx.broken else 1)
+    jobs = []
     for i in range(N):
         p = progen.gen_program(rnd, rnd.randint(1, 3))
         names = sorted(set(p.names) & set(re.findall(r'\b[A-Za-z_]\w*\b', p.src)))
@@ -64,14 +65,39 @@ def run(ctx: Ctx) -> None:
         if len(pool) < len(names):
             pool = pool + ['q%d_x' % k for k in range(len(names))]
         targets = rnd.sample(pool, len(names))
-        mapping = dict(zip(names, targets))
+        jobs.append((p, names, dict(zip(names, targets))))
+        # targeted renamings of one identifier: its new name has another identifier of the program as a proper prefix / suffix,
+        # or begins with self / cls
+        used = set(re.findall(r'\b[A-Za-z_]\w*\b', p.src))
+        for kind in ('prefix', 'suffix', 'receiver-like'):
+            if len(names) < 2:
+                break
+            a, b = rnd.sample(names, 2)
+            new = {'prefix': a + rnd.choice(['_build', 'x', '2', '_']), 'suffix': rnd.choice(['sub', 'x_', 'my']) + a, 'receiver-like': rnd.choice(['self_', 'selfish', 'clsid', 'cls_'])}[kind]
+            if kind == 'receiver-like':
+                new = new + b
+            if new in used or new in RESERVED:
+                continue
+            jobs.append((p, names, {b: new}))
+        # a function that returns an instance of a class, named with the class name as a prefix (and the converse)
+        for cls_name, fn_name in [(m.group(2), m.group(1)) for m in re.finditer(r'^def (\w+)\([^)]*\) -> (\w+):', p.src, flags=re.M) if re.search(r'^class %s\b' % m.group(2), p.src, flags=re.M)][:2]:
+            for mp in ({fn_name: cls_name + '_build'}, {cls_name: fn_name[:-1]} if len(fn_name) > 2 else {}):
+                if mp and not (set(mp.values()) & (used | RESERVED)) and set(mp) <= set(names):
+                    jobs.append((p, names, mp))
+    outs = {}
+    for i, (p, names, mapping) in enumerate(jobs):
+        targets = list(mapping.values()) + [n for n in names if n not in mapping]
         src2 = rename(p.src, mapping)
         tricky = any(a != b and (a.startswith(b) or b.startswith(a)) for a in targets for b in targets) or any(t in ('block', 'name', 'var', 'function_def', 'class_def_raw', 'file_input', 'entry') for t in targets)
         ctx.case((p.src, tuple(sorted(mapping.items()))), tricky)
-        try:
-            out1 = tsession.transpile_one(p.src)
-        except Exception as e:
-            ctx.violation('program-rejected', 'a generated program was rejected', dict(input=dict(source=p.src), impl_result=repr(e)[:300]))
+        if id(p) not in outs:
+            try:
+                outs[id(p)] = tsession.transpile_one(p.src)
+            except Exception as e:
+                outs[id(p)] = None
+                ctx.violation('program-rejected', 'a generated program was rejected', dict(input=dict(source=p.src), impl_result=repr(e)[:300]))
+        out1 = outs[id(p)]
+        if out1 is None:
             continue
         try:
             out2 = tsession.transpile_one(src2)
